@@ -194,6 +194,8 @@ type World struct {
 	crashSnaps []crashSnap
 	deliveries []*Delivery
 	damaged     []damage
+	fsStore     mqtt.Persistence
+	vfs         *vfs
 	hostileSent bool
 	hostileIdx  int
 }
@@ -970,6 +972,7 @@ func runExec(t *testing.T, scn *Scenario, prefix []int, pr pruner, trace bool) (
 		var lastKey uint64
 		for {
 			synctest.Wait()
+			w.collectObservations()
 			w.pollExchanges()
 			if w.client == nil {
 				break
